@@ -166,7 +166,7 @@ T16Misc(h, dx) ==
 
 T16CondBranchSvc(h, dx) ==
   LET cond == Bits(h, 11, 8) IN
-  CASE cond = 14 -> [k |-> "udf", enc |-> "UDF_T1", unp |-> FALSE]
+  CASE cond = 14 -> [k |-> "undef", enc |-> "UDF_T1", unp |-> FALSE]
     [] cond = 15 -> [k |-> "svc", enc |-> "SVC_T1", imm |-> Bits(h, 7, 0), unp |-> FALSE]
     [] OTHER -> [k |-> "b", enc |-> "B_T1", cond |-> cond, imm |-> SignExtN(Bits(h, 7, 0) * 2, 9), unp |-> InITBlock(dx.it)]
 
